@@ -183,13 +183,13 @@ CLAIMED = {
               "the permutation that sorts the reference string with holes replaced in place by their particles - for ANY reference, any excitation rank and ANY number "
               "of orbitals (replacing one value of a duplicate-free list changes the inversion parity by the number of entries strictly between; the loop's evolving occupation "
               "vector and the evolving list describe the same set; sequential = simultaneous replacement) - the per-run correspondence compares parity with the "
-              "model's sorting sign); an eigenvector of a symmetric (Hermitian) H used as trial gives <psi|H|phi> = E <psi|phi> for every phi, hence "
+              "model's sorting sign); the meaning of one list entry, for every size, reference and excitation rank (determinant_entry): the minor of the walker on the occupied orbitals of D = parity(ref, D) x reference minor x det of the block Theta[particles, hole positions] of Theta = W W_ref^-1 (complementary-minor identity in the in-place ordering via a two-block triangular determinant; row-order sign = product over out-of-order pairs = Perm.sign of the sorting permutation, Mathlib's sign_eq_prod_prod_Ioi) - which is term by term what multislater._calc_overlap sums; an eigenvector of a symmetric (Hermitian) H used as trial gives <psi|H|phi> = E <psi|phi> for every phi, hence "
               "every block energy equals E whatever the weights. Tied to the code by parity/hole/particle lists and read_dets (incl. malformed bytes) "
               "vs the Lean model, multislater overlaps (both entry points) vs the explicit sum_i c_i |D_i> for random order, reference and cut-off, and "
               "exact eigenvectors (own diagonalisation and pyscf FCI) -> local energies and sampler block energies equal the eigenvalue."),
         design_ref="DESIGN.md §5/C11",
-        technique="Lean 4 proof (round trip by induction, sign lemma for every size by an inversion-parity invariant, eigenvector algebra) + exact correspondence + Fock-space spec",
-        note=TB + " The link sorting-sign -> determinant (det_permute) is not formalised; the multislater energy is a finite difference (tolerance 2e-5); pyscf FCI is an external oracle.",
+        technique="Lean 4 proof (round trip by induction, sign lemma and complementary-minor identity for every size, eigenvector algebra) + exact correspondence + Fock-space spec",
+        note=TB + " The whole multislater overlap is the sum of these entries over the list (not restated as one theorem; the library's grouping by excitation rank is tied by the comparison with sum_i c_i |D_i>); the multislater energy is a finite difference (tolerance 2e-5); pyscf FCI is an external oracle.",
     ),
     "C10": dict(
         category="proof",
